@@ -74,10 +74,12 @@ def cdsFeats (r : Record) : List Feat := (r.features.getD []).filter fun f => f.
 
 /-- What RegionsFromGenbank gets from a GenBank text: the CDS features as `GbFeature`s, in file order, and the bytes of
 ORIGIN (letters only, case as in the file; empty when there is no ORIGIN section).
-`none` = ReadGenBank panics, or some CDS feature has no counterpart (see `featToGb`). -/
+`none` = ReadGenBank panics or returns the scanner's error (a line of 1 MiB or more), or some CDS feature has no
+counterpart (see `featToGb`). -/
 def gbFeaturesOfText (text : List Nat) : Option (List GbFeature × List Nat) :=
   match readGenBank text with
   | .panic => none
+  | .error => none
   | .ok r => ((cdsFeats r).mapM featToGb).map fun fs => (fs, r.origin.getD [])
 
 /-- RegionsFromGenbank on the bytes of a GenBank file, `L` = length of the (degapped) reference ; none = error -/
@@ -221,6 +223,7 @@ theorem features_from_text (text : List Nat) (fs : List GbFeature) (o : List Nat
   unfold gbFeaturesOfText at h
   cases hr : readGenBank text with
   | panic => simp [hr] at h
+  | error => simp [hr] at h
   | ok r =>
     simp only [hr] at h
     cases hm : (cdsFeats r).mapM featToGb with
@@ -415,7 +418,7 @@ theorem filter_featsToTextW (w : Nat) (fs : List GbFeature) : (featsToTextW w fs
 /-- a `GbFeature` that can be written and read back: the written feature meets the hypotheses of the round-trip theorem
 of the text layer (`FeatOk`: a well-formed location `LocOk` - at least one segment, one for a..b and complement(a..b),
 numbers within int64 - ; gene name and translation non-empty, of printable bytes other than `=` and `"`, a wrapped
-translation without blanks ; every line within the scanner's 64 KiB), codon_start within int64, at least one position -/
+translation without blanks ; every line within the scanner's 1 MiB), codon_start within int64, at least one position -/
 def GbFeatureOkW (w : Nat) (f : GbFeature) : Prop := FeatOk (featToTextW w f) ∧ GbNumOk f
 
 instance (w : Nat) (f : GbFeature) : Decidable (GbFeatureOkW w f) := by unfold GbFeatureOkW; exact inferInstance
